@@ -18,7 +18,7 @@ func init() {
 	core.Register(&core.Check{
 		ID:    "C05",
 		Level: "exploration",
-		Rule: "programs without any domain filter: (1) the operand-source x context products of C01 with the full operand list (ill-typed and nil operands included); (2) the adversarial product: every binary and unary operator over a 16-value alphabet of every kind and extreme value (zero divisors, indices -1/#s/2^63-1, shift counts -1/63/64/65) at operand depth 0/1/2 left and right, every value as if/while condition, as callee, as index and slice bound, wrong arities for user functions and all eight built-ins, aton of non-numbers; (3) every statement of at most 4 (quick) / 5 (thorough) nodes over the adversarial leaf alphabet, at top level and as a function body; (4) every token sequence of length <= 4 (quick) / 5 (thorough) over a 27-token alphabet that the parser accepts; (5) the generator x body x placement family of C02 (quick: every fourth member); (6) the statement-position product (every statement form x every body shape x 27 statement contexts). " +
+		Rule: "programs without any domain filter: (1) the operand-source x context products of C01 with the full operand list (ill-typed and nil operands included); (2) the adversarial product: every binary and unary operator over a 16-value alphabet of every kind and extreme value (zero divisors, indices -1/#s/2^63-1, shift counts -1/63/64/65) at operand depth 0/1/2 left and right, every value as if/while condition, as callee, as index and slice bound, wrong arities for user functions and all eight built-ins, aton of non-numbers; (3) every statement of at most 4 (quick) / 5 (thorough) nodes over the adversarial leaf alphabet, at top level and as a function body; (4) every token sequence of length <= 4 (quick) / 5 (thorough) over a 27-token alphabet that the parser accepts; (5) the generator x body x placement family of C02 (quick: every fourth member); (7) every pair of statements of the C08 alphabet (failures of every kind) followed by the C08 observers; (6) the statement-position product (every statement form x every body shape x 27 statement contexts). " +
 			"Each program is compiled and run on a fresh real VM under instruction fuel: a host panic, an undocumented error class or (inside the described domain) non-termination is a violation. distinct = distinct session text; non-trivial = sessions that executed at least one statement to a value or a documented runtime error",
 		Assumptions: []string{
 			"in-process execution with recover(): a Go panic is the observation of an internal fault; fatal runtime errors kill the worker and are attributed through the progress record",
@@ -175,6 +175,24 @@ func c05Run(w *core.W) {
 		})
 		if !ok {
 			return
+		}
+	}
+
+	// (7) sessions that go on after failures (the C08 alphabet): a crash may need state left behind by an earlier error
+	w.Family("sessions-after-failures")
+	{
+		al := c08Alphabet()
+		opt := c05Opt
+		opt.AllowParseErrors = true
+		for a := range al {
+			for b := range al {
+				st := append(append([]string{}, c08Prelude()...), al[a].Src, al[b].Src)
+				st = append(st, c08Observers()...)
+				runSession(w, st, opt)
+				if w.Expired("time budget reached") {
+					return
+				}
+			}
 		}
 	}
 
